@@ -88,6 +88,7 @@ def check_sf_units(ctx):
             ctx.hold("DIM", tag, (fi, rets[0].stmt), f"{known} definition(s) with unit {want.show()} — {desc}")
         else:
             ctx.undecided("DIM", tag, (fi, rets[0].stmt), "no definition with inferable unit")
+    ev.visit_tests()
     report_mismatches(ctx, fi, ev)
     report_obligations(ctx, fi, ev)
     return ev
@@ -297,6 +298,7 @@ def check_ls_units(ctx):
         ctx.decide(ok, "DIM", tag, (fi, d.stmt),
                    "result has unit length¹·amplitude⁰·count⁰: it scales with the grid and not with the field",
                    f"`{U(d.stmt)[:70]}` has unit {u.show()}, not a length: stretching the grid by a factor does not stretch the reported length scale by that factor (or the field's amplitude / cell count enters)")
+    ev.visit_tests()
     report_mismatches(ctx, fi, ev)
     report_obligations(ctx, fi, ev)
     return seen
@@ -373,11 +375,42 @@ def check_ls_structure(ctx):
             else:
                 ctx.undecided("DIM", tsite, (fi, c), f"threshold `{U(explicit)}` not classified")
     # peak: maximum excluding k = 0, bracket around it, 2π/k
-    me = [s for s in fv.statements() if isinstance(s, ast.Assign) and U(s.targets[0]) == "max_est"]
-    okm = len(me) == 1 and U(me[0].value) == "k_mag[1 + np.argmax(sf[1:])]"
-    ctx.decide(okm, "PEAK", LS + ":estimate", (fi, me[0]) if me else fi, "initial estimate = wave number of the largest non-zero mode (index shifted by the skipped k = 0 entry)",
-               f"initial peak estimate is `{U(me[0].value) if me else '?'}`; expected k_mag[1 + argmax(sf[1:])] (k = 0 carries the value 1 and must be skipped consistently)")
     sfc = [c for c in fv.calls() if (fv.callee(c) or "").endswith("get_structure_factor")]
     peak = [c for c in sfc if any("maximum" in U(t) and p for t, p in si.guards(c))]
     okc = len(peak) == 1 and isinstance(kwarg(peak[0], "smoothing"), ast.Constant) and kwarg(peak[0], "smoothing").value is None and isinstance(kwarg(peak[0], "add_zero"), ast.Constant) and kwarg(peak[0], "add_zero").value is True
-    ctx.decide(okc, "PEAK", LS + ":spectrum", (fi, peak[0]) if peak else fi, "peak search uses the raw spectrum with the zero mode added", "the peak search does not start from get_structure_factor(field, smoothing=None, add_zero=True)")
+    K = S = None
+    if len(peak) == 1:
+        pst = si.statement(peak[0])
+        if isinstance(pst, ast.Assign) and isinstance(pst.targets[0], ast.Tuple) and len(pst.targets[0].elts) == 2 and all(isinstance(e, ast.Name) for e in pst.targets[0].elts):
+            K, S = (e.id for e in pst.targets[0].elts)
+    # the arrays that are smoothed and searched are the ones get_structure_factor returned: every mode of the spectrum takes part
+    redefined = None
+    if okc and K:
+        pnode = fv.node_of(pst)
+        for n in ast.walk(fi.node):
+            if isinstance(n, ast.Name) and n.id in (K, S) and isinstance(n.ctx, ast.Load):
+                st_n = si.statement(n)
+                if st_n is None or not any("maximum" in U(t) and p for t, p in si.guards(st_n)):
+                    continue
+                defs = fv.defs_reaching(n.id, n)
+                other = [d for d in defs if d is not pnode]
+                if other and redefined is None:
+                    redefined = (other[0].stmt if other[0].stmt is not None else st_n, n.id)
+    if okc and redefined is not None:
+        ctx.violate("PEAK", LS + ":spectrum", (fi, redefined[0]), f"`{U(redefined[0])[:80]}` replaces `{redefined[1]}` between get_structure_factor and the peak search: modes are dropped or re-ordered, so the "
+                    "largest mode may no longer take part (the peak of a plane wave is found only if its own mode is kept)")
+    else:
+        ctx.decide(okc, "PEAK", LS + ":spectrum", (fi, peak[0]) if peak else fi, "peak search uses the raw spectrum with the zero mode added, unmodified",
+                   "the peak search does not start from get_structure_factor(field, smoothing=None, add_zero=True)")
+    me = []
+    if K:
+        for s_ in fv.statements():
+            if isinstance(s_, ast.Assign) and any("maximum" in U(t) and p for t, p in si.guards(s_)) and any(isinstance(c_, ast.Call) and U(c_.func).split(".")[-1] in ("argmax", "nanargmax", "argmin") for c_ in ast.walk(s_.value)):
+                me.append(s_)
+    if len(me) == 1:
+        got = U(fv.expand(me[0].value, me[0], stop=(K, S))).replace(" ", "")
+        forms = (f"{K}[1+np.argmax({S}[1:])]", f"{K}[np.argmax({S}[1:])+1]", f"{K}[1:][np.argmax({S}[1:])]", f"{K}[1+{S}[1:].argmax()]", f"{K}[{S}[1:].argmax()+1]", f"{K}[1:][{S}[1:].argmax()]")
+        ctx.decide(got in forms, "PEAK", LS + ":estimate", (fi, me[0]), "initial estimate = wave number of the largest non-zero mode (index shifted by the skipped k = 0 entry)",
+                   f"initial peak estimate is `{U(me[0].value)}`; expected {K}[1 + argmax({S}[1:])] (k = 0 carries the value 1 and must be skipped consistently)")
+    else:
+        ctx.undecided("PEAK", LS + ":estimate", fi, f"{len(me)} arg-max statements in the peak branch")
